@@ -133,7 +133,20 @@ func verifyFunc(p *Prog, key string) *FuncResult {
 	}
 	res.Obls = e.vc.obls
 	res.OutOfSubset = e.oos
-	res.ContractErrs = e.contractErrs
+	res.ContractErrs = dedup(e.contractErrs)
+	if len(e.contractErrs) > 0 || len(e.oos) > 0 {
+		// a contract that cannot be evaluated (stale names) or a function outside the subset proves nothing:
+		// no obligation of this function may count as discharged
+		why := "contract cannot be evaluated against the current source: " + strings.Join(res.ContractErrs, "; ")
+		if len(e.oos) > 0 {
+			why = "function outside the supported subset: " + strings.Join(e.oos, "; ")
+		}
+		for _, o := range res.Obls {
+			o.Status = "undecided"
+			o.Solver = ""
+			o.Model = why
+		}
+	}
 	for n := range e.vc.notes {
 		res.Notes = append(res.Notes, n)
 	}
@@ -246,4 +259,16 @@ func (e *Engine) bindInvoke(cc *ssa.CallCommon) *ssa.Function {
 
 func describeFunc(fn *ssa.Function) string {
 	return fn.String()
+}
+
+func dedup(xs []string) []string {
+	seen := map[string]bool{}
+	var out []string
+	for _, x := range xs {
+		if !seen[x] {
+			seen[x] = true
+			out = append(out, x)
+		}
+	}
+	return out
 }
